@@ -240,7 +240,18 @@ SolverOK(s, ret) ==
     IN /\ Range(ret) \subseteq 1..m /\ Cardinality(Range(ret)) = Len(ret)
        /\ CASE Solver(s) = "eigsh" ->
                  /\ Len(ret) = kk /\ AscMu(p, ret)
-                 /\ SelectionAssumed(p) => (rest = <<>> \/ NuLe(p, WorstNu(p, ret), BestNu(p, rest), OnePlusSlack))
+                 /\ IF NSp(p) <= 20
+                    THEN rest = <<>> \/ NuLe(p, WorstNu(p, ret), BestNu(p, rest), OnePlusSlack)
+                    ELSE Regime(p) =>
+                         \* N > 20, in the regime: assumed for the positive multipliers only - either all of them
+                         \* come back, or nothing but the best of them.  Which members of the non-positive tail
+                         \* follow is not assumed: Lanczos finds only some copies of the (highly) multiple Ritz
+                         \* value nu = -1 of the infinite multipliers before it moves on (observed, n = 189).
+                         LET negs == Negs(p)
+                             selNeg == SelectSeq(ret, LAMBDA i : i \in negs)
+                             restNeg == SelectSeq(rest, LAMBDA i : i \in negs)
+                         IN restNeg = <<>> \/ (Len(selNeg) = Len(ret) /\
+                                                NuLe(p, WorstNu(p, selNeg), BestNu(p, restNeg), OnePlusSlack))
             [] Solver(s) = "eigh" -> /\ Len(ret) = kk /\ AscMu(p, ret)        \* kk < m: the leading part of eigh's list
                                      /\ rest = <<>> \/ ret = <<>> \/
                                            RLe(Mu(p, ret[Len(ret)]), RAdd(Mu(p, rest[1]), RMul(Slack, MuMax(p))))
